@@ -1159,7 +1159,15 @@ impl State {
                         self.add_reverse_step(ReverseStep::SetLocal(idx, old));
                     }
                 } else {
-                    frame.locals.push_back_mut(val);
+                    // slots are numbered at compile time: a `local` that did not execute
+                    // (untaken branch, zero-trip loop) leaves a gap, fill it first
+                    for _ in frame.locals.len()..idx {
+                        self.top_frame()?.locals.push_back_mut(Cell::Nil);
+                        if self.is_recording() {
+                            self.add_reverse_step(ReverseStep::DropLocal(idx));
+                        }
+                    }
+                    self.top_frame()?.locals.push_back_mut(val);
                     if self.is_recording() {
                         self.add_reverse_step(ReverseStep::DropLocal(idx));
                     }
